@@ -513,6 +513,155 @@ Proof.
   destruct Hst as [Hst|Hst]; rewrite Hst, Hv, Hfull; exact Hfin.
 Qed.
 
+(** ** the identity (status row) of what is served belongs to the served version *)
+
+Definition pid_ok (b : backend) (p p' : peer) : Prop :=
+  (published p' = published p /\ ident p' = ident p) \/ published p' = None \/
+  (published p' = Some (b_ver b) /\ ident p' = b_ident b).
+
+Lemma pid_ok_refl b p : pid_ok b p p.
+Proof. left; split; reflexivity. Qed.
+
+Lemma fail_query_ident p : ident (fail_query p) = ident p.
+Proof. unfold fail_query. destruct (fresh p); reflexivity. Qed.
+
+Lemma mark_syncing_ident p : ident (mark_syncing p) = ident p.
+Proof. unfold mark_syncing. destruct (status p); reflexivity. Qed.
+
+Lemma pid_ok_fail b p q : pid_ok b p q -> pid_ok b p (fail_query q).
+Proof.
+  intros H. unfold pid_ok in *. rewrite fail_query_ident.
+  destruct (fail_query_published q) as [E|E]; rewrite E; [exact H|right; left; reflexivity].
+Qed.
+
+Lemma pid_ok_rebuild c k b p q : c_early c = false -> pid_ok b p q -> pid_ok b p (rebuild c k b q).
+Proof.
+  intros He H. unfold rebuild. rewrite He.
+  destruct (fails_before (eff_fault b k) (c_ns c)); [apply pid_ok_fail; exact H|].
+  destruct (fails_before (eff_fault b k) (c_nq c)); [|right; right; split; reflexivity].
+  apply pid_ok_fail. unfold pid_ok in *. rewrite mark_syncing_published, mark_syncing_ident. exact H.
+Qed.
+
+Lemma pid_ok_finish c f b p r : c_early c = false -> pid_ok b p (fst r) -> pid_ok b p (finish c f b r).
+Proof. intros He H; unfold finish; destruct (snd r); [apply pid_ok_rebuild|]; assumption. Qed.
+
+Lemma pid_ok_scan_table c t v b p q : pid_ok b p q -> pid_ok b p (fst (scan_table c t v b q)).
+Proof.
+  intros H. unfold scan_table.
+  destruct (Nat.ltb _ _); [destruct (Nat.eqb _ 0)|]; cbn [fst].
+  - right; right; split; reflexivity.
+  - right; left; reflexivity.
+  - exact H.
+Qed.
+
+Lemma pid_ok_reset b p q : pid_ok b p q -> pid_ok b p (reset_errors q).
+Proof. intros H. exact H. Qed.
+
+Lemma pid_ok_delta c f b p v : pid_ok b p (fst (delta c f b p v)).
+Proof.
+  unfold delta.
+  destruct (negb (b_ok b)); cbn [fst]; [apply pid_ok_fail, pid_ok_refl|].
+  destruct (restarted p b); cbn [fst]; [apply pid_ok_refl|].
+  destruct (f_scan f); cbn [fst]; [|apply pid_ok_reset, pid_ok_refl].
+  pose proof (pid_ok_scan_table c (c_hosts c) v b p p (pid_ok_refl b p)) as H1.
+  destruct (snd (scan_table c (c_hosts c) v b p)); cbn [fst]; [exact H1|].
+  pose proof (pid_ok_scan_table c (c_svcs c) v b p _ H1) as H2.
+  destruct (snd (scan_table c (c_svcs c) v b _)); cbn [fst]; [exact H2|].
+  apply pid_ok_reset; exact H2.
+Qed.
+
+Lemma pid_ok_full c b p v : pid_ok b p (fst (full_update c b p v)).
+Proof.
+  unfold full_update. break; cbn [fst]; try apply pid_ok_refl; try (apply pid_ok_reset, pid_ok_refl).
+  apply pid_ok_fail, pid_ok_refl.
+Qed.
+
+Lemma pid_ok_dispatch c f b p : c_early c = false -> pid_ok b p (dispatch c f b p).
+Proof.
+  intros He. unfold dispatch.
+  destruct (status p); try (apply pid_ok_rebuild; [exact He|apply pid_ok_refl]).
+  - destruct (published p) as [v|] eqn:Hv; [|apply pid_ok_rebuild; [exact He|apply pid_ok_refl]].
+    apply pid_ok_finish; [exact He|]. destruct (f_full f); [apply pid_ok_full|apply pid_ok_delta].
+  - destruct (published p) as [v|] eqn:Hv; [|apply pid_ok_rebuild; [exact He|apply pid_ok_refl]].
+    apply pid_ok_finish; [exact He|]. apply pid_ok_delta.
+  - unfold handle_broken. break; try apply pid_ok_refl; try (apply pid_ok_rebuild; [exact He|apply pid_ok_refl]).
+    apply pid_ok_fail, pid_ok_refl.
+  - destruct (published p) as [v|] eqn:Hv; [|apply pid_ok_rebuild; [exact He|apply pid_ok_refl]].
+    apply pid_ok_finish; [exact He|]. destruct (f_full f); [apply pid_ok_full|apply pid_ok_delta].
+Qed.
+
+Lemma pid_ok_tick c f b p : c_early c = false -> pid_ok b p (tick c f b p).
+Proof.
+  intros He. unfold tick.
+  destruct (if f_minute f then published p else None).
+  - destruct (refresh c (c_minute c) n b).
+    + apply pid_ok_dispatch; exact He.
+    + apply pid_ok_fail, pid_ok_refl.
+    + apply pid_ok_rebuild; [exact He|apply pid_ok_refl].
+  - apply pid_ok_dispatch; exact He.
+Qed.
+
+(** [acc] lists the identity of every version up to the backend's current one, and the peer's
+    identity is the one of the version it serves *)
+Definition ids_inv (b : backend) (p : peer) (acc : list N) : Prop :=
+  length acc = S (N.to_nat (b_ver b)) /\
+  nth_error acc (N.to_nat (b_ver b)) = Some (b_ident b) /\
+  forall v, published p = Some v -> nth_error acc (N.to_nat v) = Some (ident p).
+
+Lemma nth_error_snoc_old {A} (l : list A) x n y : nth_error l n = Some y -> nth_error (l ++ [x]) n = Some y.
+Proof.
+  intros H. rewrite nth_error_app1; [exact H|]. apply nth_error_Some. congruence.
+Qed.
+
+Lemma nth_error_snoc_new {A} (l : list A) x : nth_error (l ++ [x]) (length l) = Some x.
+Proof. rewrite nth_error_app2 by apply Nat.le_refl. rewrite Nat.sub_diag. reflexivity. Qed.
+
+Lemma ids_inv_fold c evs : c_early c = false ->
+  forall w acc, ids_inv (fst w) (snd w) acc ->
+    let w' := fold_left (step c) evs w in
+    ids_inv (fst w') (snd w') (idents_from (b_ident (fst w)) acc evs).
+Proof.
+  intros He. induction evs as [|e r IH]; intros w acc Hi; cbn [fold_left idents_from]; [exact Hi|].
+  destruct w as [b p]; cbn [fst snd] in *. destruct Hi as (Hl & Hc & Hp).
+  assert (Hsucc : N.to_nat (b_ver b + 1) = S (N.to_nat (b_ver b))) by lia.
+  destruct e; cbn [step].
+  - apply (IH (mkB (b_ident b + 1) (b_ver b + 1) (b_ok b), p)). unfold ids_inv; cbn [fst snd b_ver b_ident]. repeat split.
+    + rewrite app_length, Hl, Hsucc; cbn; lia.
+    + rewrite Hsucc, <- Hl. apply nth_error_snoc_new.
+    + intros v Hv. apply nth_error_snoc_old, Hp, Hv.
+  - apply (IH (mkB (b_ident b) (b_ver b + 1) (b_ok b), p)). unfold ids_inv; cbn [fst snd b_ver b_ident]. repeat split.
+    + rewrite app_length, Hl, Hsucc; cbn; lia.
+    + rewrite Hsucc, <- Hl. apply nth_error_snoc_new.
+    + intros v Hv. apply nth_error_snoc_old, Hp, Hv.
+  - apply (IH (mkB (b_ident b) (b_ver b) ok, p)). unfold ids_inv; cbn [fst snd b_ver b_ident]. repeat split; assumption.
+  - apply (IH (b, mkP (published p) (ident p) (status p) (err p) false)). unfold ids_inv; cbn [fst snd published ident].
+    repeat split; assumption.
+  - apply (IH (b, tick c f b p)). unfold ids_inv; cbn [fst snd]. repeat split; try assumption.
+    intros v Hv. destruct (pid_ok_tick c f b p He) as [[E1 E2]|[E|[E1 E2]]].
+    + rewrite E2. apply Hp. rewrite <- E1; exact Hv.
+    + congruence.
+    + rewrite E2. rewrite E1 in Hv; inversion Hv; subst v. exact Hc.
+Qed.
+
+Lemma thm_status_of_served_set c evs :
+  c_early c = false ->
+  let w := run c evs in
+  forall v, published (snd w) = Some v -> nth_error (idents_of evs) (N.to_nat v) = Some (ident (snd w)).
+Proof.
+  intros He w. subst w. unfold run, idents_of.
+  pose proof (ids_inv_fold c evs He world0 [1]) as H. cbn [fst snd world0 b_ident] in H.
+  apply H. unfold ids_inv; cbn. repeat split. intros v Hv; discriminate Hv.
+Qed.
+
+Lemma thm_status_during_rebuild c k b p q :
+  c_early c = false -> In q (rebuild_during c k b p) -> served_ident q = served_ident p.
+Proof.
+  intros He. unfold rebuild_during, served_ident. rewrite He.
+  destruct (fails_before (eff_fault b k) (c_ns c)); cbn [In].
+  - intros [<-|[]]; reflexivity.
+  - intros [<-|[<-|[]]]; [reflexivity|]. rewrite mark_syncing_published, mark_syncing_ident. reflexivity.
+Qed.
+
 (** ** the pinned order of side effects loses a restart *)
 
 Definition early_cfg : cfg := mkCfg 1 12 (fun _ _ => 3%nat) [0; 5; 7]%nat [0; 1; 4; 5; 6; 7]%nat 4 6 true.
